@@ -420,18 +420,25 @@ package template
 //@   serves C05 C06 C08
 //@   requires !isnil(tmpl) && !isnil(tmpl.nameSpace) && !isnil(tmpl.nameSpace.set)
 //@   requires !isnil(tmpl.nameSpace.set[name]) ==> !isnil(tmpl.nameSpace.set[name].text)
-//@   option modifies Template.escapeErr Template.Tree TT_Template.Tree
+//@   requires members: forallkey(w, haskeym(tmpl.nameSpace.set, w) ==> !isnil(tmpl.nameSpace.set[w]) && !isnil(tmpl.nameSpace.set[w].text))
+//@   requires owner: tmpl.nameSpace.esc.ns == tmpl.nameSpace
+//@   option allocates
+//@   option modifies Template.escapeErr Template.Tree TT_Template.Tree @ANALYSIS
+//@   ensures once: isnil(err) ==> forallref(p, !haskeym(tmpl.nameSpace.esc.actionNodeEdits, p) && !haskeym(tmpl.nameSpace.esc.templateNodeEdits, p) && !haskeym(tmpl.nameSpace.esc.textNodeEdits, p))
 //@   ensures failed: !isnil(err) && !isnil(tmpl.nameSpace.set[name]) ==> tmpl.nameSpace.set[name].escapeErr == err && isnil(tmpl.nameSpace.set[name].Tree) && isnil(tmpl.nameSpace.set[name].text.Tree)
 //@   ensures failedval: !isnil(err) ==> err != errEscapeOK
 //@   ensures ok: isnil(err) && !isnil(tmpl.nameSpace.set[name]) ==> tmpl.nameSpace.set[name].escapeErr == errEscapeOK && tmpl.nameSpace.set[name].Tree == tmpl.nameSpace.set[name].text.Tree
-//@   ensures others: onlyobjects(tmpl.nameSpace.set[name], tmpl.nameSpace.set[name].text)
+//@   ensures others: onlyobjects("Template.escapeErr Template.Tree TT_Template.Tree", tmpl.nameSpace.set[name], tmpl.nameSpace.set[name].text)
 
 //@ func (t *Template) escape() (err error)
-//@   serves C05 C07 C08
+//@   serves C05 C06 C07 C08
 //@   requires !isnil(t) && !isnil(t.nameSpace) && !isnil(t.text) && !held(t.nameSpace.mu) && !isnil(t.nameSpace.set)
 //@   requires registered: t.nameSpace.set[ttname(t.text)] == t
 //@   requires treesync: isnil(t.escapeErr) ==> t.Tree == t.text.Tree
-//@   option modifies Template.escapeErr Template.Tree TT_Template.Tree nameSpace.escaped
+//@   requires members: forallkey(w, haskeym(t.nameSpace.set, w) ==> !isnil(t.nameSpace.set[w]) && !isnil(t.nameSpace.set[w].text))
+//@   requires owner: t.nameSpace.esc.ns == t.nameSpace
+//@   option allocates
+//@   option modifies Template.escapeErr Template.Tree TT_Template.Tree nameSpace.escaped @ANALYSIS
 //@   option locks true
 //@   ensures frozen: t.nameSpace.escaped
 //@   ensures unlocked: !held(t.nameSpace.mu)
@@ -445,7 +452,10 @@ package template
 //@   requires !isnil(t) && !isnil(t.nameSpace) && !isnil(t.text) && !held(t.nameSpace.mu) && !isnil(t.nameSpace.set)
 //@   requires registered: t.nameSpace.set[ttname(t.text)] == t
 //@   requires treesync: isnil(t.escapeErr) ==> t.Tree == t.text.Tree
-//@   option modifies Template.escapeErr Template.Tree TT_Template.Tree nameSpace.escaped $written
+//@   requires members: forallkey(w, haskeym(t.nameSpace.set, w) ==> !isnil(t.nameSpace.set[w]) && !isnil(t.nameSpace.set[w].text))
+//@   requires owner: t.nameSpace.esc.ns == t.nameSpace
+//@   option allocates
+//@   option modifies Template.escapeErr Template.Tree TT_Template.Tree nameSpace.escaped $written @ANALYSIS
 //@   option locks true
 //@   ensures frozen: t.nameSpace.escaped
 //@   ensures sticky: !isnil(old(t.escapeErr)) && old(t.escapeErr) != errEscapeOK ==> !isnil(err) && written() == old(written()) && t.escapeErr == old(t.escapeErr)
@@ -458,18 +468,24 @@ package template
 //@   requires !isnil(t) && !isnil(t.nameSpace) && !isnil(t.text) && !held(t.nameSpace.mu) && !isnil(t.nameSpace.set)
 //@   requires registered: t.nameSpace.set[ttname(t.text)] == t
 //@   requires treesync: isnil(t.escapeErr) ==> t.Tree == t.text.Tree
-//@   option modifies Template.escapeErr Template.Tree TT_Template.Tree nameSpace.escaped $written
+//@   requires members: forallkey(w, haskeym(t.nameSpace.set, w) ==> !isnil(t.nameSpace.set[w]) && !isnil(t.nameSpace.set[w].text))
+//@   requires owner: t.nameSpace.esc.ns == t.nameSpace
+//@   option allocates
+//@   option modifies Template.escapeErr Template.Tree TT_Template.Tree nameSpace.escaped $written @ANALYSIS
 //@   option locks true
 //@   ensures zero: !isnil(err) ==> len(r.str) == 0
 //@   ensures sticky: !isnil(old(t.escapeErr)) && old(t.escapeErr) != errEscapeOK ==> !isnil(err)
 
 //@ func (t *Template) lookupAndEscapeTemplate(name string) (tmpl *Template, err error)
-//@   serves C05 C07 C08
+//@   serves C05 C06 C07 C08
 //@   option nopanic
 //@   requires !isnil(t) && !isnil(t.nameSpace) && !isnil(t.text) && !held(t.nameSpace.mu) && !isnil(t.nameSpace.set)
 //@   requires setwf: !isnil(t.nameSpace.set[name]) ==> !isnil(t.nameSpace.set[name].text) && t.nameSpace.set[name].nameSpace == t.nameSpace
 //@   requires insync: !isnil(t.nameSpace.set[name]) ==> !isnil(ttlookup(t.text, name))
-//@   option modifies Template.escapeErr Template.Tree TT_Template.Tree nameSpace.escaped
+//@   requires members: forallkey(w, haskeym(t.nameSpace.set, w) ==> !isnil(t.nameSpace.set[w]) && !isnil(t.nameSpace.set[w].text))
+//@   requires owner: t.nameSpace.esc.ns == t.nameSpace
+//@   option allocates
+//@   option modifies Template.escapeErr Template.Tree TT_Template.Tree nameSpace.escaped @ANALYSIS
 //@   option locks true
 //@   ensures frozen: t.nameSpace.escaped
 //@   ensures unlocked: !held(t.nameSpace.mu)
@@ -482,7 +498,10 @@ package template
 //@   requires !isnil(t) && !isnil(t.nameSpace) && !isnil(t.text) && !held(t.nameSpace.mu) && !isnil(t.nameSpace.set)
 //@   requires setwf: !isnil(t.nameSpace.set[name]) ==> !isnil(t.nameSpace.set[name].text) && t.nameSpace.set[name].nameSpace == t.nameSpace
 //@   requires insync: !isnil(t.nameSpace.set[name]) ==> !isnil(ttlookup(t.text, name))
-//@   option modifies Template.escapeErr Template.Tree TT_Template.Tree nameSpace.escaped $written
+//@   requires members: forallkey(w, haskeym(t.nameSpace.set, w) ==> !isnil(t.nameSpace.set[w]) && !isnil(t.nameSpace.set[w].text))
+//@   requires owner: t.nameSpace.esc.ns == t.nameSpace
+//@   option allocates
+//@   option modifies Template.escapeErr Template.Tree TT_Template.Tree nameSpace.escaped $written @ANALYSIS
 //@   option locks true
 //@   ensures undefined: isnil(old(t.nameSpace.set[name])) ==> !isnil(err) && written() == old(written())
 //@   ensures sticky: !isnil(old(t.nameSpace.set[name])) && !isnil(old(t.nameSpace.set[name].escapeErr)) && old(t.nameSpace.set[name].escapeErr) != errEscapeOK ==> !isnil(err) && written() == old(written())
@@ -492,7 +511,10 @@ package template
 //@   requires !isnil(t) && !isnil(t.nameSpace) && !isnil(t.text) && !held(t.nameSpace.mu) && !isnil(t.nameSpace.set)
 //@   requires setwf: !isnil(t.nameSpace.set[name]) ==> !isnil(t.nameSpace.set[name].text) && t.nameSpace.set[name].nameSpace == t.nameSpace
 //@   requires insync: !isnil(t.nameSpace.set[name]) ==> !isnil(ttlookup(t.text, name))
-//@   option modifies Template.escapeErr Template.Tree TT_Template.Tree nameSpace.escaped $written
+//@   requires members: forallkey(w, haskeym(t.nameSpace.set, w) ==> !isnil(t.nameSpace.set[w]) && !isnil(t.nameSpace.set[w].text))
+//@   requires owner: t.nameSpace.esc.ns == t.nameSpace
+//@   option allocates
+//@   option modifies Template.escapeErr Template.Tree TT_Template.Tree nameSpace.escaped $written @ANALYSIS
 //@   option locks true
 //@   ensures zero: !isnil(err) ==> len(r.str) == 0
 
@@ -666,3 +688,29 @@ package template
 //@   ensures owner: r.ns == n
 //@   ensures freshmaps: fresh(r.output) && fresh(r.derived) && fresh(r.called) && fresh(r.actionNodeEdits) && fresh(r.templateNodeEdits) && fresh(r.textNodeEdits)
 //@   ensures empty: forallkey(w, !haskeym(r.output, w) && !haskeym(r.derived, w) && !haskeym(r.called, w))
+
+//@ func (e *escaper) arbitraryTemplate() (r *Template)
+//@   serves C06 C08
+//@   option embedded nameSpace.esc
+//@   requires !isnil(e.ns) && !isnil(e.ns.set)
+//@   requires members: forallkey(w, haskeym(e.ns.set, w) ==> !isnil(e.ns.set[w]) && !isnil(e.ns.set[w].text))
+//@   ensures member: !isnil(r) && !isnil(r.text)
+
+//@ func (e *escaper) template(name string) (r *template.Template)
+//@   serves C06 C08
+//@   option embedded nameSpace.esc
+//@   requires !isnil(e.ns) && !isnil(e.ns.set)
+//@   requires members: forallkey(w, haskeym(e.ns.set, w) ==> !isnil(e.ns.set[w]) && !isnil(e.ns.set[w].text))
+
+//@ func (e *escaper) commit() ()
+//@   serves C06
+//@   option embedded nameSpace.esc
+//@   option allocates
+//@   option modifies nameSpace.esc.called nameSpace.esc.actionNodeEdits nameSpace.esc.templateNodeEdits nameSpace.esc.textNodeEdits parse_PipeNode.Cmds parse_TemplateNode.Name#b parse_TemplateNode.Name#o parse_TemplateNode.Name#l parse_TextNode.Text#b parse_TextNode.Text#o parse_TextNode.Text#l
+//@   requires !isnil(e.ns) && !isnil(e.ns.set)
+//@   requires members: forallkey(w, haskeym(e.ns.set, w) ==> !isnil(e.ns.set[w]) && !isnil(e.ns.set[w].text))
+//@   requires derivedok: forallkey(w, haskeym(e.derived, w) ==> !isnil(e.derived[w]))
+//@   requires editkeys: forallref(p, haskeym(e.actionNodeEdits, p) || haskeym(e.templateNodeEdits, p) || haskeym(e.textNodeEdits, p) ==> !isnil(p))
+//@   ensures once: fresh(e.actionNodeEdits) && fresh(e.templateNodeEdits) && fresh(e.textNodeEdits) && fresh(e.called)
+//@   ensures cleared: forallref(p, !haskeym(e.actionNodeEdits, p) && !haskeym(e.templateNodeEdits, p) && !haskeym(e.textNodeEdits, p))
+//@   ensures memo: e.output == old(e.output) && e.derived == old(e.derived)
